@@ -91,5 +91,8 @@ def busCmd (st : BusState) (toks : List String) : BusState × String :=
       match p' with
       | some p' => ({ st with bus := { st.bus with policy := p' } }, "ok")
       | none => (st, "bad-op")
+  | ["timeout"] =>
+    let (b, out) := step driverTable st.bus .timeout
+    ({ st with bus := b }, showOuts out)
   | ["state"] => (st, showState st.bus)
   | _ => (st, "bad-op")
